@@ -680,11 +680,11 @@ theorem Inv.init (U : Bytes → Tx) (cfg : Config) : Inv U (Pool.init cfg) := by
 theorem Inv.clear (U : Bytes → Tx) (p : Pool) (_h : Inv U p) : Inv U (clear Variant.current p) := by
   refine ⟨?_, ?_, ?_, ?_, ?_, ?_, ?_, ?_, ?_, ?_⟩ <;> simp [SV.TxCache.clear, Variant.current, sumSizes]
 
-theorem Inv.removeTxByHash (U : Bytes → Tx) (p : Pool) (hsh : Bytes) (h : Inv U p) :
-    Inv U (removeTxByHash p hsh).1 := by
+theorem removeTxByHash_both (U : Bytes → Tx) (p : Pool) (hsh : Bytes) (h : Inv U p) :
+    Inv U (removeTxByHash p hsh).1 ∧ (ListsSorted p → ListsSorted (removeTxByHash p hsh).1) := by
   unfold SV.TxCache.removeTxByHash
   split
-  · exact h
+  · exact ⟨h, id⟩
   · next t hm =>
     obtain ⟨hh, hw, l, hl, htl⟩ := hashed_listed h hm
     simp only [byHashRemove_lists, hl]
@@ -708,10 +708,13 @@ theorem Inv.removeTxByHash (U : Bytes → Tx) (p : Pool) (hsh : Bytes) (h : Inv 
       intro x _ hx hk
       have := hgt x hk
       omega
-    refine Inv.shrink
+    refine ⟨Inv.shrink
       (q0 := { byHashRemove p hsh with lists := aset t.sender (dropLowerOrEqual t.nonce l) p.lists })
       h hl hsub [hsh] (pre.map (·.hash)) ?_ ?_ rfl (by simp)
-      (((hashOk_of_inv h).byHashRemove hsh).of_eq rfl rfl rfl) ?_
+      (((hashOk_of_inv h).byHashRemove hsh).of_eq rfl rfl rfl) ?_,
+      fun hso => shrink_sorted
+        (q0 := { byHashRemove p hsh with lists := aset t.sender (dropLowerOrEqual t.nonce l) p.lists })
+        h hso hl hsub rfl (by simp) _⟩
     · intro x hx hn
       rw [hpre] at hx
       rcases List.mem_append.mp hx with hx | hx
@@ -729,6 +732,20 @@ theorem Inv.removeTxByHash (U : Bytes → Tx) (p : Pool) (hsh : Bytes) (h : Inv 
       show (k, x) ∈ (byHashRemove p hsh).byHash ↔ _
       rw [mem_byHashRemove]
       simp
+
+theorem Inv.removeTxByHash (U : Bytes → Tx) (p : Pool) (hsh : Bytes) (h : Inv U p) :
+    Inv U (removeTxByHash p hsh).1 := (removeTxByHash_both U p hsh h).1
+
+theorem ListsSorted.removeTxByHash (U : Bytes → Tx) (p : Pool) (hsh : Bytes) (h : Inv U p) (hso : ListsSorted p) :
+    ListsSorted (removeTxByHash p hsh).1 := (removeTxByHash_both U p hsh h).2 hso
+
+theorem ListsSorted.init (cfg : Config) : ListsSorted (Pool.init cfg) := by
+  intro s l hm
+  simp [Pool.init] at hm
+
+theorem ListsSorted.clear (v : Variant) (p : Pool) : ListsSorted (SV.TxCache.clear v p) := by
+  intro s l hm
+  simp [SV.TxCache.clear] at hm
 
 /-! ### insertion -/
 
@@ -753,15 +770,271 @@ def addTxCore (v : Variant) (p : Pool) (t : Tx) : Pool × Bool :=
 theorem addTx_eq_core (v : Variant) (p0 : Pool) (t : Tx) :
     addTx v p0 t = addTxCore v (if p0.cfg.evictionEnabled then evict v p0 else p0) t := rfl
 
-example (U : Bytes → Tx) (p : Pool) (t : Tx) (l : List Tx) (hb : alookup t.hash p.byHash = none) (hl : alookup t.sender p.lists = some l) :
-    Inv U (addTxCore Variant.current p t).1 := by
-  simp only [addTxCore, hb, hl]
-  trace_state
-  sorry
-example (U : Bytes → Tx) (p : Pool) (t : Tx) (l : List Tx) (hb : alookup t.hash p.byHash = none) (hl : alookup t.sender p.lists = none) :
-    Inv U (addTxCore Variant.current p t).1 := by
-  simp only [addTxCore, hb, hl]
-  trace_state
-  sorry
+namespace C5
+
+theorem hashOk_append {U : Bytes → Tx} {p q : Pool} {t : Tx} (hp : HashOk U p) (ht : WfTx U t)
+    (hb : alookup t.hash p.byHash = none) (e3 : q.byHash = p.byHash ++ [(t.hash, t)])
+    (e4 : q.cntTx = p.cntTx + 1) (e5 : q.numBytes = p.numBytes + t.size) : HashOk U q := by
+  refine ⟨?_, ?_, ?_, ?_⟩
+  · intro k x hx
+    rw [e3] at hx
+    rcases List.mem_append.mp hx with hx | hx
+    · exact hp.wfHash k x hx
+    · simp only [List.mem_singleton, Prod.mk.injEq] at hx
+      obtain ⟨rfl, rfl⟩ := hx
+      exact ⟨rfl, ht⟩
+  · rw [e3]
+    simp only [keys, List.map_append, List.map_cons, List.map_nil]
+    refine List.nodup_append.mpr ⟨hp.keysNodup, by simp, ?_⟩
+    intro a ha b hb'
+    simp only [List.mem_singleton] at hb'
+    subst hb'
+    intro e
+    subst e
+    exact (alookup_none_iff.mp hb) ha
+  · rw [e3, e4, hp.cntTx]; simp
+  · rw [e3, e5, hp.numBytes, sumSizes_append]; simp [sumSizes]
+
+/-- a transaction whose hash is not indexed is inserted into its sender's list (created if absent):
+    the invariant holds for the pool BEFORE trimming -/
+theorem insertFresh {U : Bytes → Tx} {p pI : Pool} {t : Tx} {l : List Tx} (h : Inv U p) (hso : ListsSorted p)
+    (ht : WfTx U t) (hb : alookup t.hash p.byHash = none)
+    (hl : alookup t.sender p.lists = some l ∨ (alookup t.sender p.lists = none ∧ l = []))
+    (e1 : pI.lists = aset t.sender (orderedInsert t l) p.lists)
+    (e2 : pI.cntSenders = ((aset t.sender (orderedInsert t l) p.lists).length : Int))
+    (e3 : pI.byHash = p.byHash ++ [(t.hash, t)]) (e4 : pI.cntTx = p.cntTx + 1)
+    (e5 : pI.numBytes = p.numBytes + t.size) :
+    insertTx t l = some (orderedInsert t l) ∧ ListSorted (orderedInsert t l) ∧ Inv U pI ∧ ListsSorted pI := by
+  -- t is in no list
+  have hnot : ∀ s0 l0, (s0, l0) ∈ p.lists → t ∉ l0 := by
+    intro s0 l0 hm htl
+    exact alookup_none_not_mem hb t ((h.same t).mpr ⟨s0, l0, hm, htl⟩)
+  -- members of l are pooled under t.sender
+  have hlmem : ∀ x ∈ l, (t.sender, l) ∈ p.lists := by
+    intro x hx
+    rcases hl with hl | ⟨-, rfl⟩
+    · exact alookup_some_mem hl
+    · simp at hx
+  have hlsorted : ListSorted l := by
+    rcases hl with hl | ⟨-, rfl⟩
+    · exact hso _ _ (alookup_some_mem hl)
+    · simp [ListSorted]
+  have hnodup : ¬ ∃ c ∈ l, c.nonce = t.nonce ∧ c.gasPrice = t.gasPrice ∧ c.hash = t.hash := by
+    rintro ⟨c, hc, -, -, hch⟩
+    have hml := hlmem c hc
+    have : c = t := wf_inj (h.wfLists _ _ hml c hc).1 ht hch
+    subst this
+    exact hnot _ _ hml hc
+  have hins : insertTx t l = some (orderedInsert t l) := by
+    rw [insertTx_eq_orderedInsert t l hlsorted, if_neg hnodup]
+  have hmsorted : ListSorted (orderedInsert t l) := orderedInsert_sorted t l hlsorted hnodup
+  have hmne : orderedInsert t l ≠ [] :=
+    List.ne_nil_of_mem ((mem_orderedInsert t t l).mpr (Or.inl rfl))
+  have hwf : ∀ x ∈ orderedInsert t l, WfTx U x ∧ x.sender = t.sender := by
+    intro x hx
+    rcases (mem_orderedInsert t x l).mp hx with rfl | hx
+    · exact ⟨ht, rfl⟩
+    · exact h.wfLists _ _ (hlmem x hx) x hx
+  obtain ⟨hok, hchar⟩ := lists_set (listsOk_of_inv h) hwf hmsorted.nonceSorted e1 e2
+  have hlk : alookup t.sender pI.lists = some (orderedInsert t l) := by rw [e1]; exact alookup_aset_self ..
+  rw [removeSenderIfEmpty_of_nonempty hlk hmne] at hok hchar
+  refine ⟨hins, hmsorted, inv_of_parts (hashOk_append (hashOk_of_inv h) ht hb e3 e4 e5) hok ?_, ?_⟩
+  · intro x
+    rw [e3]
+    constructor
+    · intro hx
+      rcases List.mem_append.mp hx with hx | hx
+      · obtain ⟨s1, l1, hm1, hx1⟩ := (h.same x).mp hx
+        by_cases hs1 : s1 = t.sender
+        · subst hs1
+          rcases hl with hl | ⟨hl, -⟩
+          · have : l1 = l := by
+              have := alookup_of_mem h.sendersNodup hm1
+              rw [hl] at this
+              exact (Option.some.inj this).symm
+            subst this
+            exact ⟨_, _, (hchar _ _).mpr (Or.inr ⟨rfl, rfl, hmne⟩), (mem_orderedInsert t x l1).mpr (Or.inr hx1)⟩
+          · exact absurd hm1 (alookup_none_not_mem hl l1)
+        · exact ⟨s1, l1, (hchar s1 l1).mpr (Or.inl ⟨hm1, hs1⟩), hx1⟩
+      · simp only [List.mem_singleton, Prod.mk.injEq] at hx
+        obtain ⟨-, rfl⟩ := hx
+        exact ⟨_, _, (hchar _ _).mpr (Or.inr ⟨rfl, rfl, hmne⟩), (mem_orderedInsert x x l).mpr (Or.inl rfl)⟩
+    · rintro ⟨s1, l1, hm1, hx1⟩
+      rcases (hchar s1 l1).mp hm1 with ⟨hm, -⟩ | ⟨rfl, rfl, -⟩
+      · exact List.mem_append_left _ ((h.same x).mpr ⟨s1, l1, hm, hx1⟩)
+      · rcases (mem_orderedInsert t x l).mp hx1 with rfl | hx
+        · exact List.mem_append_right _ (List.mem_singleton.mpr rfl)
+        · exact List.mem_append_left _ ((h.same x).mpr ⟨_, l, hlmem x hx, hx⟩)
+  · intro s1 l1 hm1
+    rcases (hchar s1 l1).mp hm1 with ⟨hm, -⟩ | ⟨rfl, rfl, -⟩
+    · exact hso s1 l1 hm
+    · exact hmsorted
+
+theorem fresh_insertTx {U : Bytes → Tx} {p : Pool} {t : Tx} {l : List Tx} (h : Inv U p) (hso : ListsSorted p)
+    (ht : WfTx U t) (hb : alookup t.hash p.byHash = none)
+    (hl : alookup t.sender p.lists = some l ∨ (alookup t.sender p.lists = none ∧ l = [])) :
+    insertTx t l = some (orderedInsert t l) :=
+  (insertFresh (pI := ⟨p.cfg, aset t.sender (orderedInsert t l) p.lists, p.byHash ++ [(t.hash, t)], p.cntTx + 1,
+    p.numBytes + t.size, ((aset t.sender (orderedInsert t l) p.lists).length : Int)⟩)
+    h hso ht hb hl rfl rfl rfl rfl rfl).1
+
+/-- …and after trimming (`trim1`, `removeSenderIfEmpty`, bulk removal of the dropped hash) -/
+theorem fresh_trim {U : Bytes → Tx} {p : Pool} {t : Tx} {l : List Tx} (h : Inv U p) (hso : ListsSorted p)
+    (ht : WfTx U t) (hb : alookup t.hash p.byHash = none)
+    (hl : alookup t.sender p.lists = some l ∨ (alookup t.sender p.lists = none ∧ l = []))
+    (cfg : Config) (q0 : Pool)
+    (e1 : q0.lists = aset t.sender (trim1 cfg (orderedInsert t l)).1 p.lists)
+    (e2 : q0.cntSenders = ((aset t.sender (orderedInsert t l) p.lists).length : Int))
+    (e3 : q0.byHash = p.byHash ++ [(t.hash, t)]) (e4 : q0.cntTx = p.cntTx + 1)
+    (e5 : q0.numBytes = p.numBytes + t.size) :
+    Inv U (removeBulk (removeSenderIfEmpty q0 t.sender) ((trim1 cfg (orderedInsert t l)).2.map (·.hash))) ∧
+    ListsSorted (removeBulk (removeSenderIfEmpty q0 t.sender) ((trim1 cfg (orderedInsert t l)).2.map (·.hash))) := by
+  let pI : Pool :=
+    { cfg := cfg, lists := aset t.sender (orderedInsert t l) p.lists, byHash := p.byHash ++ [(t.hash, t)],
+      cntTx := p.cntTx + 1, numBytes := p.numBytes + t.size,
+      cntSenders := ((aset t.sender (orderedInsert t l) p.lists).length : Int) }
+  obtain ⟨-, hms, hI, hIs⟩ := insertFresh (pI := pI) h hso ht hb hl rfl rfl rfl rfl rfl
+  have hlk : alookup t.sender pI.lists = some (orderedInsert t l) := alookup_aset_self ..
+  have happ := trim1_append cfg (orderedInsert t l)
+  have hsub : (trim1 cfg (orderedInsert t l)).1.Sublist (orderedInsert t l) := by
+    conv => rhs; rw [← happ]
+    exact List.sublist_append_left _ _
+  have hnd : ((trim1 cfg (orderedInsert t l)).1 ++ (trim1 cfg (orderedInsert t l)).2).Nodup := by
+    rw [happ]; exact hms.nodup
+  have e1' : q0.lists = aset t.sender (trim1 cfg (orderedInsert t l)).1 pI.lists := by
+    rw [e1]; exact (aset_aset _ _ _ _).symm
+  refine ⟨Inv.shrink_split hI hlk hsub ?_ ?_ e1' e2 e3 e4 e5, shrink_sorted hI hIs hlk hsub e1' e2 _⟩
+  · intro x hx
+    rw [← happ] at hx
+    exact List.mem_append.mp hx
+  · intro x hx
+    refine ⟨by rw [← happ]; exact List.mem_append_right _ hx, ?_⟩
+    intro hx'
+    exact (List.nodup_append.mp hnd).2.2 x hx' x hx rfl
+
+end C5
+
+/-- insertion after the optional eviction step keeps the invariant and the sortedness of the lists -/
+theorem Inv.addTxCore (U : Bytes → Tx) (p : Pool) (t : Tx) (h : Inv U p) (hso : ListsSorted p) (ht : WfTx U t) :
+    Inv U (addTxCore Variant.current p t).1 ∧ ListsSorted (addTxCore Variant.current p t).1 := by
+  cases hb : alookup t.hash p.byHash with
+  | some x =>
+    obtain ⟨hh, hw, l, hl, hxl⟩ := hashed_listed h hb
+    have hxt : x = t := wf_inj hw ht hh
+    subst hxt
+    have hins : insertTx x l = none := by
+      rw [insertTx_eq_orderedInsert x l (hso _ _ (alookup_some_mem hl)), if_pos ⟨x, hxl, rfl, rfl, rfl⟩]
+    simp only [SV.TxCache.addTxCore, hb, hl, hins]
+    exact ⟨h, hso⟩
+  | none =>
+    cases hl : alookup t.sender p.lists with
+    | some l =>
+      have hins := fresh_insertTx h hso ht hb (Or.inl hl)
+      simp only [SV.TxCache.addTxCore, hb, hl, hins, Variant.current, Bool.false_eq_true, if_false]
+      refine fresh_trim h hso ht hb (Or.inl hl) p.cfg _ rfl ?_ rfl rfl rfl
+      show p.cntSenders = _
+      rw [length_aset_of_present _ (mem_keys_of_mem (alookup_some_mem hl))]
+      exact h.cntSenders
+    | none =>
+      have hins := fresh_insertTx (l := []) h hso ht hb (Or.inr ⟨hl, rfl⟩)
+      simp only [SV.TxCache.addTxCore, hb, hl, hins, Variant.current, Bool.false_eq_true, if_false]
+      refine fresh_trim h hso ht hb (Or.inr ⟨hl, rfl⟩) p.cfg _ ?_ ?_ rfl rfl rfl
+      · show aset t.sender _ (p.lists ++ [(t.sender, [])]) = _
+        rw [← aset_of_absent [] hl, aset_aset]
+      · show p.cntSenders + 1 = _
+        rw [aset_of_absent _ hl, List.length_append, h.cntSenders]
+        simp
+
+/-- insertion without the eviction step.
+    NOTE the extra hypothesis `hso` (strict sortedness of the sender lists, the `sorted` half of `ListsInv`): `Inv` alone
+    allows a list to hold the same transaction twice, and then trimming removes its hash while a copy stays listed
+    (see `addTx_noEvict_needs_sorted` below).  Every reachable pool satisfies `ListsSorted` (`EvictInv.lean`). -/
+theorem Inv.addTx_noEvict (U : Bytes → Tx) (p : Pool) (t : Tx) (h : Inv U p) (hso : ListsSorted p) (ht : WfTx U t)
+    (he : p.cfg.evictionEnabled = false) : Inv U (addTx Variant.current p t).1 := by
+  rw [addTx_eq_core, he]
+  exact (Inv.addTxCore U p t h hso ht).1
+
+theorem ListsSorted.addTx_noEvict (U : Bytes → Tx) (p : Pool) (t : Tx) (h : Inv U p) (hso : ListsSorted p)
+    (ht : WfTx U t) (he : p.cfg.evictionEnabled = false) : ListsSorted (addTx Variant.current p t).1 := by
+  rw [addTx_eq_core, he]
+  exact (Inv.addTxCore U p t h hso ht).2
+
+/-- an emptied pool reports zero everywhere -/
+theorem Inv.empty_reports_zero (U : Bytes → Tx) (p : Pool) (h : Inv U p) (he : p.byHash = []) :
+    p.lists = [] ∧ p.cntTx = 0 ∧ p.numBytes = 0 ∧ p.cntSenders = 0 := by
+  have hl : p.lists = [] := by
+    cases hp : p.lists with
+    | nil => rfl
+    | cons a r =>
+      obtain ⟨s, l⟩ := a
+      have hm : (s, l) ∈ p.lists := by rw [hp]; exact List.mem_cons_self ..
+      cases l with
+      | nil => exact absurd rfl (h.nonEmpty s [] hm)
+      | cons t ts =>
+        have := (h.same t).mpr ⟨s, t :: ts, hm, List.mem_cons_self ..⟩
+        rw [he] at this
+        simp at this
+  refine ⟨hl, ?_, ?_, ?_⟩
+  · rw [h.cntTx, he]; rfl
+  · rw [h.numBytes, he]; rfl
+  · rw [h.cntSenders, hl]; rfl
+
+/-- no transaction is reachable by hash but by no list (no "ghost"), and vice versa -/
+theorem Inv.no_ghost (U : Bytes → Tx) (p : Pool) (h : Inv U p) (hsh : Bytes) (t : Tx)
+    (hm : alookup hsh p.byHash = some t) : ∃ l, alookup t.sender p.lists = some l ∧ t ∈ l :=
+  (hashed_listed h hm).2.2
+
+theorem Inv.listed_is_hashed (U : Bytes → Tx) (p : Pool) (h : Inv U p) (s : Bytes) (l : List Tx) (t : Tx)
+    (hl : alookup s p.lists = some l) (ht : t ∈ l) : alookup t.hash p.byHash = some t :=
+  alookup_of_mem h.keysNodup ((h.same t).mpr ⟨s, l, alookup_some_mem hl, ht⟩)
+
+/-- `Inv` alone is NOT preserved by insertion: a list holding the same transaction twice satisfies `Inv`; inserting a
+    lower nonce makes `trim1` drop the last copy and remove its hash, while the other copy stays listed. -/
+theorem addTx_noEvict_needs_sorted : ∃ (U : Bytes → Tx) (p : Pool) (t : Tx),
+    Inv U p ∧ WfTx U t ∧ p.cfg.evictionEnabled = false ∧ ¬ Inv U (addTx Variant.current p t).1 := by
+  let t1 : Tx := ⟨[1], [0xa0], 5, 1, 1, 10, 0, 0, []⟩
+  let t0 : Tx := ⟨[2], [0xa0], 1, 1, 1, 10, 0, 0, []⟩
+  let cfg : Config := ⟨false, 1000, 1000, 100, 2, 1⟩
+  let p : Pool := ⟨cfg, [([0xa0], [t1, t1])], [([1], t1)], 1, 10, 1⟩
+  refine ⟨fun h => if h = [2] then t0 else t1, p, t0, ?_, by unfold WfTx; decide, rfl, ?_⟩
+  · refine ⟨?_, ?_, ?_, ?_, ?_, ?_, ?_, ?_, ?_, ?_⟩
+    · intro s l hm t ht
+      simp only [p, List.mem_singleton, Prod.mk.injEq] at hm
+      obtain ⟨rfl, rfl⟩ := hm
+      simp only [List.mem_cons, List.not_mem_nil, or_false, or_self] at ht
+      subst ht
+      unfold WfTx
+      decide
+    · intro h t hm
+      simp only [p, List.mem_singleton, Prod.mk.injEq] at hm
+      obtain ⟨rfl, rfl⟩ := hm
+      unfold WfTx
+      decide
+    · decide
+    · decide
+    · intro s l hm
+      simp only [p, List.mem_singleton, Prod.mk.injEq] at hm
+      obtain ⟨rfl, rfl⟩ := hm
+      decide
+    · intro s l hm
+      simp only [p, List.mem_singleton, Prod.mk.injEq] at hm
+      obtain ⟨rfl, rfl⟩ := hm
+      decide
+    · intro t
+      simp only [p, List.mem_singleton, Prod.mk.injEq]
+      constructor
+      · rintro ⟨-, rfl⟩
+        exact ⟨[0xa0], [t1, t1], ⟨rfl, rfl⟩, List.mem_cons_self ..⟩
+      · rintro ⟨s, l, ⟨rfl, rfl⟩, ht⟩
+        simp only [List.mem_cons, List.not_mem_nil, or_false, or_self] at ht
+        subst ht
+        exact ⟨rfl, rfl⟩
+    · decide
+    · decide
+    · decide
+  · intro hI
+    have h1 := (hI.same t1).mpr ⟨[0xa0], [t0, t1], by decide, by decide⟩
+    revert h1
+    decide
 
 end SV.TxCache
